@@ -33,8 +33,8 @@ static void cb(tp_event_p ev, tp_udata_p ud) { (void)ev; (void)ud; n_cb++; }
 void harness(void) {
 	V_BEGIN();
 	tpev_env_init(IN.s_flags);
-	tp_udata_t *ud = (tp_udata_t *)v_alloc(sizeof(tp_udata_t));
-	memset(ud, 0, sizeof(*ud));
+	static tp_udata_t ud_obj;	/* static: constant propagation (see tpev_env.h) */
+	tp_udata_t *ud = &ud_obj;
 	ud->cb_func = IN.cb_null ? NULL : cb;
 	ud->ident = (uintptr_t)IN.ident;
 	ud->tpdata = IN.tpdata;
